@@ -49,6 +49,13 @@ pub struct TTable {
     pub rows: Vec<Vec<TCell>>,
     /// number of leading rows placed in <thead>
     pub thead_rows: usize,
+    /// number of rows placed in <tfoot>: the last ones, or - with `tfoot_first` -
+    /// the ones right after the head (written before the body, as HTML 4 asked;
+    /// rows are rendered in source order either way)
+    pub tfoot_rows: usize,
+    pub tfoot_first: bool,
+    /// the body rows from this index (into the body) on form a second <tbody>
+    pub tbody_split: Option<usize>,
 }
 
 impl TTable {
@@ -58,6 +65,15 @@ impl TTable {
     pub fn to_node(&self) -> Node {
         let mut head = Vec::new();
         let mut body = Vec::new();
+        let mut foot = Vec::new();
+        let n = self.rows.len();
+        let foot_range = if self.tfoot_rows == 0 {
+            n..n
+        } else if self.tfoot_first {
+            self.thead_rows..(self.thead_rows + self.tfoot_rows).min(n)
+        } else {
+            n.saturating_sub(self.tfoot_rows).max(self.thead_rows)..n
+        };
         for (ri, row) in self.rows.iter().enumerate() {
             let mut cells = Vec::new();
             for c in row {
@@ -96,6 +112,8 @@ impl TTable {
             let tr = El::with("tr", cells).node();
             if ri < self.thead_rows {
                 head.push(tr)
+            } else if foot_range.contains(&ri) {
+                foot.push(tr)
             } else {
                 body.push(tr)
             }
@@ -105,8 +123,26 @@ impl TTable {
         if !head.is_empty() {
             kids.push(El::with("thead", head).node());
         }
-        if !body.is_empty() || !had_head {
-            kids.push(El::with("tbody", body).node());
+        let foot_node = if foot.is_empty() { None } else { Some(El::with("tfoot", foot).node()) };
+        if self.tfoot_first {
+            if let Some(f) = foot_node.clone() {
+                kids.push(f);
+            }
+        }
+        if !body.is_empty() || (!had_head && foot_node.is_none()) {
+            match self.tbody_split {
+                Some(k) if k > 0 && k < body.len() => {
+                    let second = body.split_off(k);
+                    kids.push(El::with("tbody", body).node());
+                    kids.push(El::with("tbody", second).node());
+                }
+                _ => kids.push(El::with("tbody", body).node()),
+            }
+        }
+        if !self.tfoot_first {
+            if let Some(f) = foot_node {
+                kids.push(f);
+            }
         }
         El::with("table", kids).node()
     }
@@ -261,11 +297,27 @@ pub fn gen_table(rng: &mut Rng, tok: &mut Tokens, depth: usize, allow_nested: bo
         }
         rows.push(row);
     }
-    let thead_rows = if nrows > 1 && rng.chance(1, 4) { 1 } else { 0 };
+    let thead_rows = if nrows > 1 && rng.chance(1, 4) {
+        if nrows > 2 && rng.chance(1, 2) {
+            2
+        } else {
+            1
+        }
+    } else {
+        0
+    };
+    let rest = nrows - thead_rows;
+    let tfoot_rows = if rest > 1 && rng.chance(1, 5) { 1 } else { 0 };
+    let tfoot_first = tfoot_rows > 0 && rng.chance(1, 3);
+    let nbody = rest - tfoot_rows;
+    let tbody_split = if nbody > 1 && rng.chance(1, 5) { Some(rng.range(1, nbody - 1)) } else { None };
     TTable {
         ncols,
         rows,
         thead_rows,
+        tfoot_rows,
+        tfoot_first,
+        tbody_split,
     }
 }
 
@@ -346,6 +398,9 @@ pub fn exhaustive_table(mut idx: u64, max_rows: usize, max_cols: usize, rng: &mu
                     ncols: cols,
                     rows: rws,
                     thead_rows: 0,
+                    tfoot_rows: 0,
+                    tfoot_first: false,
+                    tbody_split: None,
                 };
             }
             idx -= n;
@@ -356,6 +411,9 @@ pub fn exhaustive_table(mut idx: u64, max_rows: usize, max_cols: usize, rng: &mu
         ncols: 1,
         rows: vec![vec![make_cell(rng, tok, Content::Long, 1, false)]],
         thead_rows: 0,
+        tfoot_rows: 0,
+        tfoot_first: false,
+        tbody_split: None,
     }
 }
 
